@@ -23,17 +23,20 @@ real_mods = common.real_mods
 replay = common.generic_replay
 
 
-def _build(env, td, cls, tag=""):
+def _build(env, td, cls, tag="", assign=None):
     C = getattr(td, cls)
     idxn, parn = map_spec(C)
     ps = [env.par(tag + p, "real" if p in REAL_PARAMS else "pos") for p in parn]
-    assign = tuple(range(len(idxn)))
+    if assign is None:
+        assign = tuple(range(len(idxn)))
     return C(*assign, *ps), len(idxn)
 
 
-def h_roundtrip(env, cls):
+def h_roundtrip(env, cls, assign=None):
+    """`assign`: the feature indices given to the constructor (default 0..n-1 in argument order; the variants use descending and
+    repeated indices, which a loader must hand back to the same constructor arguments)"""
     td = env.m.td
-    m, nx = _build(env, td, cls)
+    m, nx = _build(env, td, cls, assign=assign)
     x = env.arr("x", (nx, 1), "pos", hi="1e9")
     ok, d = env.attempt("as_dict_returns", lambda: m.as_dict())
     if not ok:
@@ -368,6 +371,14 @@ def tasks(tier):
     out = []
     for C in td.ALL_CLASSES:
         out.append(Task("roundtrip/%s" % C.__name__, h_roundtrip, dict(cls=C.__name__), max_paths=600))
+        n = len(map_spec(C)[0])
+        if n >= 2:
+            import itertools
+            variants = [tuple(reversed(range(n)))]
+            if tier == "thorough":
+                variants = [a for a in itertools.product(range(n), repeat=n) if a != tuple(range(n))]
+            for a in variants:
+                out.append(Task("roundtrip/%s/idx=%s" % (C.__name__, ",".join(map(str, a))), h_roundtrip, dict(cls=C.__name__, assign=a), max_paths=600))
     names = [C.__name__ for C in td.ALL_CLASSES]
     groups = [names[i:i + 3] for i in range(0, len(names), 3)] if tier == "thorough" else [names[:3], names[-3:]]
     for n, g in enumerate(groups):
@@ -418,7 +429,7 @@ META = dict(
     functions=['ciderpress/dft/xc_evaluator.py: RBFEvaluator / AntisymRBFEvaluator / SpinRBFEvaluator through the object-state round trip, evaluated through model_utils.c (object_state/*Evaluator)', 'ciderpress/dft/feat_normalizer.py: FeatNormalizerList / normaliser classes through the object-state round trip (__getstate__/__setstate__/__dict__), get_normalized_feature_vector (object_state/*)', "ciderpress/dft/transform_data.py: <every class in ALL_CLASSES>.as_dict/from_dict, FeatureNormalizer.from_dict, FeatureList.as_dict/from_dict/dump/load",
                "ciderpress/dft/xc_evaluator.py: SplineSetEvaluator.to_dict/from_dict, MappedDFTKernel.to_dict", "ciderpress/dft/xc_evaluator2.py: MappedDFTKernel2.to_dict",
                "ciderpress/dft/model_utils.py: load_cider_model"],
-    bounds=dict(parameters="symbolic reals", features="symbolic in (0, 1e9]", cycles="2 save/load cycles", feature_lists="3 maps per list (all classes over the groups); through the YAML contract: 3 and 12 maps",
+    bounds=dict(index_assignments="constructor indices 0..n-1 in argument order and in descending order (quick); every assignment in {0..n-1}^n (thorough)", parameters="symbolic reals", features="symbolic in (0, 1e9]", cycles="2 save/load cycles", feature_lists="3 maps per list (all classes over the groups); through the YAML contract: 3 and 12 maps",
                 strings="CrossHair: symbolic str, per-condition timeout", file_layer="one concrete round trip per class and format"),
     stubs=["yaml/joblib file I/O is not executed symbolically; contract stub for the YAML layer: every mapping is rebuilt with its keys in sorted order "
            "(yaml.dump sort_keys=True + yaml.load file order), sequences and scalars unchanged; concrete replays use the real yaml.dump/yaml.load with the loader FeatureList.load uses"],
